@@ -55,7 +55,7 @@ def parse_records(text):
     return recs
 
 
-def run_real(progs, env=None, timeout=300):
+def run_real(progs, env=None, timeout=300, args=()):
     """Run programs on the real engine in 16 parallel child processes; a child that dies (abort, stack
     overflow) loses only the program it was running: the rest of its chunk is re-run."""
     n = len(progs)
@@ -65,7 +65,7 @@ def run_real(progs, env=None, timeout=300):
         todo = list(idxs)
         while todo:
             text = SEP.join(progs[i] for i in todo) + "\n"
-            rc, out, err = C.run_bin([C.bin_path("c01")], text, timeout=timeout, env=env)
+            rc, out, err = C.run_bin([C.bin_path("c01")] + list(args), text, timeout=timeout, env=env)
             recs = parse_records(out)
             for k, i in enumerate(todo):
                 if k < len(recs) and recs[k]["res"] is not None:
@@ -83,6 +83,65 @@ def run_real(progs, env=None, timeout=300):
     chunks = [list(range(i, n, C.NCPU)) for i in range(C.NCPU)]
     C.pool_map(run_chunk, [c for c in chunks if c])
     return results
+
+
+def split_forms(src):
+    """Top-level forms of a program text (paren balanced; strings, character literals and comments respected)."""
+    forms, cur, depth, i, n = [], [], 0, 0, len(src)
+    while i < n:
+        c = src[i]
+        if c == ";" :
+            while i < n and src[i] != "\n":
+                i += 1
+            continue
+        if c == '"':
+            j = i + 1
+            while j < n and src[j] != '"':
+                j += 2 if src[j] == "\\" else 1
+            cur.append(src[i:j + 1])
+            i = j + 1
+            if depth == 0:
+                forms.append("".join(cur).strip()); cur = []
+            continue
+        if c == "#" and i + 1 < n and src[i + 1] == "\\":
+            j = i + 3
+            while j < n and (src[j].isalnum()):
+                j += 1
+            cur.append(src[i:j]); i = j
+            if depth == 0:
+                forms.append("".join(cur).strip()); cur = []
+            continue
+        if c in "([":
+            depth += 1
+        elif c in ")]":
+            depth -= 1
+        if depth == 0 and c.isspace():
+            if "".join(cur).strip():
+                tok = "".join(cur).strip()
+                if tok not in ("'", "`", ",", ",@"):
+                    forms.append(tok); cur = []
+                    i += 1
+                    continue
+            i += 1
+            continue
+        cur.append(c)
+        i += 1
+        if depth == 0 and c in ")]":
+            forms.append("".join(cur).strip()); cur = []
+    if "".join(cur).strip():
+        forms.append("".join(cur).strip())
+    return [f for f in forms if f]
+
+
+def observe_all(src):
+    """The same program with every top-level expression printed: what a file run as a module can show."""
+    out = []
+    for f in split_forms(src):
+        if re.match(r"[(\[]\s*(define|define-values|struct|define-syntax|require|provide|set!)(?=[\s()\[\]])", f):
+            out.append(f)
+        else:
+            out.append("(displayln %s)" % f)
+    return "\n".join(out)
 
 
 def run_spec(progs):
@@ -160,6 +219,27 @@ def run(ctx):
         if len(ctx.violations) >= 5:
             break
 
+    # (a') the same programs the way `steel file.scm` runs them: as a required module (module-level procedures take
+    # other compiler / JIT paths); every top-level expression is printed, output and outcome are compared with S
+    nmod = len(progs) if not ctx.quick() else min(len(progs), len(corpus) + 160)
+    mprogs = [observe_all(p) for p in progs[:nmod]]
+    mreal = run_real(mprogs, args=["--module"])
+    mspec, mrc = run_spec(mprogs)
+    stats["module_programs"] = 0
+    for i, (p, r, m) in enumerate(zip(mprogs, mreal, mspec + [None] * (len(mprogs) - len(mspec)))):
+        if m is None or (m["res"][0] == "err" and m["res"][1].startswith("timeout")):
+            continue
+        stats["module_programs"] += 1
+        if r["res"][0] == m["res"][0] and r["out"].strip() == m["out"].strip():
+            continue
+        stats["disagreements_checked"] += 1
+        if probe_of.get(progs[i]) in known:
+            continue                       # already reported above as the witness of an open finding
+        ctx.violation("C01-module-%d.txt" % i, "# program evaluated as a module: (require \"<file>\") with this text\n%s\n# real engine : %s output=%r\n# specification: %s output=%r\n" % (
+            p, r["res"][0], r["out"][:300], m["res"][0], m["out"][:300]))
+        if len(ctx.violations) >= 8:
+            break
+
     # (b) fragment: evalIR vs model VM vs real
     nf = 480 if ctx.quick() else 30000
     frags = [gen_frag_program(rng, 3) for _ in range(nf)]
@@ -202,7 +282,7 @@ def run(ctx):
         "evaluations": stats["programs"] + stats["frag"], "distinct_nontrivial": len(stats["seen"]),
         "rule": "whole programs: gen/progs.py (type-directed, seeded by VERIF_SEED), one fresh engine each; fragment programs: gen/frag.py emitting lowered IR + Steel source; distinct = different program text; every program has several definitions and observing forms",
         "samples": stats["samples"], "feature_counts": stats["features"], "spec_outcomes": stats["outcomes"],
-        "fragment_programs": stats["frag"], "fragment_model_vs_vm_mismatches": stats["frag_model_mismatch"],
+        "fragment_programs": stats["frag"], "module_mode_programs": stats.get("module_programs", 0), "fragment_model_vs_vm_mismatches": stats["frag_model_mismatch"],
         "known_finding_hits": stats["known_hits"], "axioms": pr.get("axioms", {}),
         "proof_failures": ["%s: %s" % f for f in pr["failed"]],
     }
